@@ -44,7 +44,8 @@ InDomain ==
     /\ Valid(R.scheme, R.p, R.c)
     /\ \A i \in 1..Len(R.kwlens) : R.kwlens[i] >= 6
     /\ R.idlen >= 8
-    /\ R.neglog2 > 40
+(* the chance bound depends on the sizes of what was built: known only for an observable case *)
+BoundOK == R.neglog2 > 40
 NonVacuous ==
     /\ R.nkw = Len(R.p) /\ R.nkw > 0 /\ R.nid > 0 /\ R.ntok >= R.nkw
     /\ (R.scheme # "CGKO06.SSE2" => Len(R.ct1) > 0 /\ Len(R.ct2) > 0)
@@ -52,6 +53,7 @@ NonVacuous ==
 WhyA ==
     IF ~InDomain THEN "ValidDomain"
     ELSE IF R.setup1 # "built" \/ R.setup2 # "built" THEN "Observable"
+    ELSE IF ~BoundOK THEN "ValidDomain"
     ELSE IF ~NonVacuous THEN "NonVacuous"
     ELSE IF BadHits # {} THEN "NoPlainLeaf:" \o FirstBadHit.what \o ":" \o FirstBadHit.wh
     ELSE IF ~Distinct(R.ct1) \/ ~Distinct(R.ct2) THEN "EntriesDistinct"
